@@ -1501,6 +1501,8 @@ val page_completions_simple : uData -> config -> str list -> cmd option e
 
 val wait_yn : uData -> config -> nat -> cmd -> cmd e
 
+val list_span_step : uData -> config -> nat -> str list -> unit e
+
 val complete_line : uData -> config -> nat -> cmd option e
 
 val search_prompt : bool -> str -> str
